@@ -17,7 +17,8 @@ MIN_COUNTERS = dict(quick={'epsalg_entries_asserted': 3000, 'epsalg_recovery_ass
                            'dea_first_three_asserted': 1500, 'dea_table_membership_asserted': 3000, 'dea_branch:table_capped_at_limexp': 100,
                            'dea_branch:all_converged': 100, 'dea_branch:partial_convergence_shrinks_table': 100},
                     thorough={'epsalg_entries_asserted': 100000, 'dea_calls_total_asserted': 2000000})
-RULE = ('histories: L + sum_{i<=k} a_i q_i^n (k = 1..4), random finite sequences, alternating series partial sums, '
+RULE = ('Two further families: extreme (subnormal terms, units of 1e+-20..140, values up to 1e100) and integers (terms as Python / numpy integers). ' 
+        'histories: L + sum_{i<=k} a_i q_i^n (k = 1..4), random finite sequences, alternating series partial sums, '
         'sequences rounded to 1 decimal (exact ties, constant tails); lengths 1..200, limexp 3..60; one EpsAlg and '
         'one Dea instance fed term by term. distinct non-trivial = (family, k, length bucket, limexp bucket, '
         'set of Dea branches fired) for histories with >= 5 terms')
